@@ -50,20 +50,28 @@ Definition c01_exactly_once (c : config) (t : list event) : bool :=
   negb (run_returned t) ||
   forallb (fun i => negb (mem_ev (ERunCall i) t) || Nat.eqb (count_ev (EStopCall i) t) 1) (seq 0 (nrun c)).
 
-(* events that can initiate a shutdown *)
-Definition is_trigger (e : event) : bool :=
+(* events that can initiate a shutdown: a Shutdown() call, an INT/TERM SendSignal call, the cancellation of
+   the parent context, a trigger offered by a runnable that IS a ShutdownSender, a runnable's Run returning a
+   non-cancellation error.  No other API call (ReloadAll, SIGHUP, unknown signals), no trigger offered by a
+   runnable that is not a ShutdownSender, no nil / cancellation exit. *)
+Definition is_trigger (c : config) (e : event) : bool :=
   match e with
   | ECall _ OpShutdown | ECall _ (OpSignal SigInt) | ECall _ (OpSignal SigTerm)
-  | EParentCancel | ETrigS _ | ERunRet _ (Some (_, false)) => true
+  | EParentCancel | ERunRet _ (Some (_, false)) => true
+  | ETrigS i => ssender (spec c i)
   | _ => false
   end.
 
-(* no Stop() before shutdown starts: every StopCall is preceded by a trigger (the start-up
-   deadline leaves no event of its own) *)
-Definition chk_not_before (pre : list event) (e : event) : bool :=
-  match e with EStopCall _ => existsb is_trigger pre | _ => true end.
+(* no Stop() before shutdown starts: every StopCall is preceded by a trigger *)
+Definition chk_not_before (c : config) (pre : list event) (e : event) : bool :=
+  match e with EStopCall _ => existsb (is_trigger c) pre | _ => true end.
+Definition c01_not_before_strict (c : config) (t : list event) : bool := all_check (chk_not_before c) t.
+(* The only other cause of a shutdown is the start-up deadline, which leaves no event of its own when it fires
+   (in the model: ghost flag su_fired).  On a trace it shows only later: Run() then returns the start-up
+   timeout error.  The trace form therefore excuses exactly the traces in which Run() returned that error, or -
+   when the deadline can fire - has not returned yet; the model form (C01_not_before) has no excuse. *)
 Definition c01_not_before (c : config) (t : list event) : bool :=
-  startup_may_fire c || all_check chk_not_before t.
+  c01_not_before_strict c t || mem_ev (ERunReturn ResTimeout) t || (startup_may_fire c && negb (run_returned t)).
 
 Definition c01_holdsb (c : config) (t : list event) : bool :=
   c01_order c t && c01_exactly_once c t && c01_not_before c t.
@@ -140,9 +148,13 @@ Definition chk_result (c : config) (pre : list event) (e : event) : bool :=
 Definition c04_holdsb (c : config) (t : list event) : bool := all_check (chk_result c) t.
 
 (* SIGHUP / unknown signals / nil exits / cancellation errors never make Run() return: when Run()
-   returns, a shutdown trigger has occurred (or the start-up deadline could fire) *)
+   returns, a shutdown trigger has occurred - the only excuse is the genuine start-up timeout path: Run()
+   returns the start-up timeout error (and that deadline can fire) *)
 Definition chk_cause (c : config) (pre : list event) (e : event) : bool :=
-  match e with ERunReturn _ => startup_may_fire c || existsb is_trigger pre | _ => true end.
+  match e with
+  | ERunReturn r => existsb (is_trigger c) pre || (startup_may_fire c && result_eqb r ResTimeout)
+  | _ => true
+  end.
 Definition c04_needs_cause (c : config) (t : list event) : bool := all_check (chk_cause c) t.
 
 (* if no runnable returned a real error, Run() returns nil *)
@@ -202,6 +214,44 @@ Definition c05_no_dup (c : config) (t : list event) : bool :=
 
 Definition c05_holdsb (c : config) (t : list event) : bool := c05_shape c t && c05_no_dup c t.
 
+(* no request is lost (lower bound, at quiescent points): requests that are certainly with the manager or were
+   served - ReloadAll() calls that returned, SIGHUP SendSignal calls that returned, triggers offered by a
+   ReloadSender *)
+Definition requests_in (c : config) (t : list event) : nat :=
+  length (filter (fun e => match e with
+                           | ERet _ OpReloadAll | ERet _ (OpSignal SigHup) => true
+                           | ETrigR i => rsender (spec c i)
+                           | _ => false end) t).
+
+(* Run() has started every runnable and passed every readiness gate: it is in reap() (as long as nothing has
+   triggered a shutdown) *)
+Definition in_reap (c : config) (t : list event) : bool :=
+  forallb (fun i => mem_ev (ERunCall i) t && (negb (stateable (spec c i)) || mem_ev (EPoll i true) t)) (seq 0 (nrun c)).
+
+(* the reload events so far are whole passes (with c05_shape: the manager is between two passes) *)
+Definition whole_passes (c : config) (t : list event) : bool :=
+  match length (one_pass c) with
+  | O => true
+  | S m => Nat.eqb (Nat.modulo (length (reload_evs t)) (S m)) 0
+  end.
+
+(* at a quiescent observation, the supervisor running in reap() (no shutdown trigger so far, parent context live),
+   something Reloadable and the manager between two passes: every such request has had a pass of its own *)
+Fixpoint c05_lower_aux (c : config) (pre t : list event) : bool :=
+  match t with
+  | [] => true
+  | e :: t' =>
+    (match e with
+     | EQuiet | ESnap _ =>
+       existsb (is_trigger c) pre || existsb is_stop_ev pre || negb (in_reap c pre)
+       || match reloadables c with [] => true | _ => false end
+       || negb (whole_passes c pre)
+       || Nat.leb (requests_in c pre) (passes_begun c pre)
+     | _ => true
+     end) && c05_lower_aux c (pre ++ [e]) t'
+  end.
+Definition c05_lower (c : config) (t : list event) : bool := c05_lower_aux c [] t.
+
 (* ---------------------------------------------------------------- C06 / C18 (at snapshots) *)
 
 (* the true state of every runnable according to the Emit events *)
@@ -240,16 +290,34 @@ Fixpoint state_at_stopret (i : nat) (t : list event) (acc : st) : st :=
   | _ :: t' => state_at_stopret i t' acc
   end.
 
+(* runnable i's Run was invoked before its Stop() was called (so startRunnable's store of the initial state is
+   older than Shutdown's store of the final one) *)
+Fixpoint called_before_stop (i : nat) (t : list event) (seen : bool) : bool :=
+  match t with
+  | [] => false
+  | ERunCall j :: t' => called_before_stop i t' (seen || Nat.eqb i j)
+  | EStopCall j :: t' => if Nat.eqb i j then seen else called_before_stop i t' seen
+  | _ :: t' => called_before_stop i t' seen
+  end.
+
+(* nobody but Shutdown writes runnable i's map entry after its Stop(): its monitor never obtained the state
+   channel (held, never released), it is not Reloadable, its initial store is older than its Stop() *)
+Definition sole_writer (c : config) (i : nat) (pre : list event) : bool :=
+  held_sub (spec c i) && negb (mem_ev (ESubRel i) pre) && negb (reloadable (spec c i)) && called_before_stop i pre false.
+
 (* after shutdown the map reports the state each runnable had when its Stop() returned - whatever it did
-   afterwards: checked at snapshots taken after Run() returned (shutdown timeout not configured to fire) *)
+   afterwards: checked at snapshots taken after Run() returned.  When the shutdown timeout can fire the wait may
+   have been abandoned: the stores after the wait are then missing and a lagging monitor may have written last, so
+   only the entries with no other writer are checked (they were stored when Stop() returned) *)
 Fixpoint c06_final_aux (c : config) (pre t : list event) : bool :=
   match t with
   | [] => true
   | e :: t' =>
     (match e with
      | ESnap o =>
-       negb (sn_run_returned o) || shutdown_may_fire c ||
+       negb (sn_run_returned o) ||
        forallb (fun i => negb (stateable (spec c i)) || negb (mem_ev (EStopRet i) pre)
+                         || (shutdown_may_fire c && negb (sole_writer c i pre))
                          || opt_st_eqb (nth i (sn_smap o) None) (Some (state_at_stopret i pre 0)))
                (seq 0 (nrun c))
      | _ => true
@@ -298,19 +366,20 @@ Definition c18_bounded (c : config) (t : list event) : bool := c18_bounded_aux c
 (* ---------------------------------------------------------------- C04 (reports clause) *)
 
 (* shutdown triggers other than a runnable's failure *)
-Definition is_nonfail_trigger (e : event) : bool :=
+Definition is_nonfail_trigger (c : config) (e : event) : bool :=
   match e with
   | ECall _ OpShutdown | ECall _ (OpSignal SigInt) | ECall _ (OpSignal SigTerm)
-  | EParentCancel | ETrigS _ => true
+  | EParentCancel => true
+  | ETrigS i => ssender (spec c i)
   | _ => false
   end.
 
 (* Run() returns nil only after a trigger that is not a failure: so when a runnable fails and no
    other trigger occurs, the result is not nil - by chk_result it is then a runnable's real error
    (or the start-up timeout when that deadline can fire) *)
-Definition chk_reports (pre : list event) (e : event) : bool :=
-  match e with ERunReturn ResNil => existsb is_nonfail_trigger pre | _ => true end.
-Definition c04_reports (c : config) (t : list event) : bool := all_check chk_reports t.
+Definition chk_reports (c : config) (pre : list event) (e : event) : bool :=
+  match e with ERunReturn ResNil => existsb (is_nonfail_trigger c) pre | _ => true end.
+Definition c04_reports (c : config) (t : list event) : bool := all_check (chk_reports c) t.
 
 (* ---------------------------------------------------------------- C06 (a subscriber learns new entries) *)
 
